@@ -297,6 +297,49 @@ pub fn run(thorough: bool, seed: u64, _replay: Option<String>) -> Report {
         }
         vh::flush_caches();
     }
+    // (1d) same-size siblings: texts of exactly the same byte length (and the same decoded length) but different
+    // composition – what a memo keyed by sizes instead of content would confuse – each compared with its cold answer
+    {
+        let cyr = "\u{43f}\u{440}\u{438}\u{432}\u{435}\u{442} \u{43c}\u{438}\u{440} ";
+        let mk = |cyr_words: usize, total: usize| -> Vec<u8> {
+            let mut t = cyr.repeat(cyr_words);
+            while t.len() < total {
+                t.push_str("plain words and more ");
+            }
+            let mut b = t.into_bytes();
+            b.truncate(total);
+            while std::str::from_utf8(&b).is_err() {
+                b.pop();
+            }
+            while b.len() < total {
+                b.push(b'.');
+            }
+            b
+        };
+        let sett = Sett::default();
+        for total in [80usize, 300, 1200] {
+            let variants: Vec<Vec<u8>> = vec![mk(total / 20, total), mk(1, total), mk(total / 40, total)];
+            for a in 0..variants.len() {
+                for b2 in 0..variants.len() {
+                    if a == b2 || variants[a] == variants[b2] {
+                        continue;
+                    }
+                    vh::flush_caches();
+                    let cold = fresh_process_detect(&variants[b2], &sett);
+                    let _ = real_detect(&variants[a], &sett);
+                    let warm = real_detect(&variants[b2], &sett).show();
+                    rep.evaluations += 1;
+                    rep.oracle_checked += 1;
+                    rep.count("history:same-size-sibling");
+                    if let Some(cold) = cold {
+                        if warm != cold {
+                            rep.fail("oracle", "C11:answer-differs-from-a-fresh-process", &format!("right after a text of the same size ({} bytes): {} || brand-new process: {}", total, warm.chars().take(300).collect::<String>(), cold.chars().take(300).collect::<String>()), &variants[b2], Some(&sett), "same-size-sibling");
+                        }
+                    }
+                }
+            }
+        }
+    }
     // (2) drive the bounded caches past their capacity (2048), then ask again
     let n_fill = if thorough { 1500 } else { 520 };
     for i in 0..n_fill {
